@@ -43,7 +43,10 @@ func (se *SpecEnv) evalTerm(e *SpecExpr) *Term {
 	if len(e.Parts) != 1 {
 		return se.evalBool(e)
 	}
-	v := se.eval(e.Parts[0])
+	v := se.rvalue(se.eval(e.Parts[0]))
+	if p, isP := v.(*PtrV); isP && p.Obj != nil {
+		v = se.rvalue(se.deref(p))
+	}
 	t, ok := v.(*Term)
 	if !ok {
 		unsup("spec %q: expected scalar, got %T", e.Src, v)
@@ -394,8 +397,12 @@ func (se *SpecEnv) field(base Value, name string, baseExpr ast.Expr) Value {
 		t := se.fr.v.typeAtPath(b.Obj.Type, b.Path)
 		if _, isPtr := t.Underlying().(*types.Pointer); isPtr {
 			// pointer-typed cell: follow it (h.params.Width)
-			if inner, ok := se.fr.load(se.state(), b).(*PtrV); ok && inner.Obj != nil {
+			lv := se.fr.v.getPath(se.fr.v.content(se.state(), b.Obj), b.Path)
+			if inner, ok := lv.(*PtrV); ok && inner.Obj != nil {
 				return se.field(inner, name, baseExpr)
+			}
+			if iv, ok := lv.(*IteV); ok {
+				return se.field(iv, name, baseExpr)
 			}
 			unsup("spec field %s through a nil or conditional pointer", name)
 		}
@@ -410,7 +417,24 @@ func (se *SpecEnv) field(base Value, name string, baseExpr ast.Expr) Value {
 		}
 		unsup("no field %s in %s", name, t)
 	case *IteV:
+		// a possibly-nil pointer: the field of the non-nil alternative (specifications guard such reads
+		// with isnil(...); in the nil case the value is irrelevant)
+		if a, ok := b.A.(*PtrV); ok && a.Obj == nil {
+			return se.field(b.B, name, baseExpr)
+		}
+		if c, ok := b.B.(*PtrV); ok && c.Obj == nil {
+			return se.field(b.A, name, baseExpr)
+		}
 		return &IteV{C: b.C, A: se.field(b.A, name, baseExpr), B: se.field(b.B, name, baseExpr)}
+	case *AggV:
+		if id, ok := baseExpr.(*ast.Ident); ok && se.fr.srcTypes != nil {
+			if t, ok := se.fr.srcTypes[id.Name]; ok {
+				if _, isS := t.Underlying().(*types.Struct); isS {
+					return se.field(&TypedAgg{b, t}, name, baseExpr)
+				}
+			}
+		}
+		unsup("spec field %s of an aggregate value of unknown type", name)
 	case *TypedAgg:
 		st := b.T.Underlying().(*types.Struct)
 		for i := 0; i < st.NumFields(); i++ {
@@ -579,6 +603,37 @@ func (se *SpecEnv) callSpec(c *ast.CallExpr) Value {
 		return r
 	case "ite":
 		return se.fr.v.mergeV(targ(0), arg(1), arg(2))
+	case "fresh": // the slice/pointer result is backed by an object allocated during this call (owned by nobody else)
+		switch a := arg(0).(type) {
+		case *SliceV:
+			return F.Bool(a.Obj == nil || (!a.Obj.Entry && !se.fr.v.escaped[a.Obj]))
+		case *PtrV:
+			return F.Bool(a.Obj == nil || (!a.Obj.Entry && !se.fr.v.escaped[a.Obj]))
+		case *IteV:
+			var rec func(v Value) *Term
+			rec = func(v Value) *Term {
+				switch x := v.(type) {
+				case *SliceV:
+					return F.Bool(x.Obj == nil || (!x.Obj.Entry && !se.fr.v.escaped[x.Obj]))
+				case *PtrV:
+					return F.Bool(x.Obj == nil || (!x.Obj.Entry && !se.fr.v.escaped[x.Obj]))
+				case *IteV:
+					return F.Ite(x.C, rec(x.A), rec(x.B))
+				}
+				unsup("fresh() of %T", v)
+				return nil
+			}
+			return rec(a)
+		}
+		unsup("fresh() of %T", arg(0))
+	case "noescape": // the argument's backing object has not been stored into memory that outlives the call
+		switch a := arg(0).(type) {
+		case *SliceV:
+			return F.Bool(a.Obj == nil || !se.fr.v.escaped[a.Obj])
+		case *PtrV:
+			return F.Bool(a.Obj == nil || !se.fr.v.escaped[a.Obj])
+		}
+		unsup("noescape() of %T", arg(0))
 	case "imp":
 		return F.Imp(targ(0), targ(1))
 	case "b2i":
